@@ -427,9 +427,12 @@ func genHistory(t *rapid.T) *History {
 	if vk.Thorough() {
 		maxSteps = 10
 	}
-	n := rapid.IntRange(3, maxSteps).Draw(t, "nsteps")
+	n := rapid.IntRange(4, maxSteps).Draw(t, "nsteps")
 	nextBlock := 0
 	keys := []string{"k0", "k1", "k2", "k3"}
+	// keys present after the steps generated so far (root / bucket), so that deletes
+	// and overwrites mostly hit something that is on disk already
+	present := [2]map[string]bool{{}, {}}
 	for i := 0; i < n; i++ {
 		kind := rapid.SampledFrom([]string{"commit", "commit", "commit", "commit", "update", "update", "rollback", "reopen"}).Draw(t, "kind")
 		st := Step{Kind: kind}
@@ -448,17 +451,50 @@ func genHistory(t *rapid.T) *History {
 				st.Blocks = append(st.Blocks, Block{nextBlock, size})
 				nextBlock++
 			}
-			nk := rapid.IntRange(0, 3).Draw(t, "nkv")
+			st.DropBkt = rapid.IntRange(0, 5).Draw(t, "dropBucket") == 0
+			now := [2]map[string]bool{{}, {}}
+			for w := 0; w < 2; w++ {
+				for k := range present[w] {
+					now[w][k] = true
+				}
+			}
+			if st.DropBkt {
+				now[1] = map[string]bool{}
+			}
+			nk := rapid.IntRange(0, 4).Draw(t, "nkv")
 			for j := 0; j < nk; j++ {
 				kv := KV{Bucket: rapid.Bool().Draw(t, "inBucket"), Key: rapid.SampledFrom(keys).Draw(t, "key")}
-				if rapid.IntRange(0, 3).Draw(t, "del") == 0 {
-					kv.Del = true
+				w := 0
+				if kv.Bucket {
+					w = 1
+				}
+				var have []string
+				for _, k := range keys {
+					if now[w][k] {
+						have = append(have, k)
+					}
+				}
+				// deleting is only interesting when something is there: 40% then, 5% otherwise
+				del := false
+				if len(have) > 0 {
+					if del = rapid.IntRange(0, 9).Draw(t, "del") < 4; del {
+						kv.Key = rapid.SampledFrom(have).Draw(t, "haveKey")
+					}
 				} else {
+					del = rapid.IntRange(0, 19).Draw(t, "delAbsent") == 0
+				}
+				if del {
+					kv.Del = true
+					delete(now[w], kv.Key)
+				} else {
+					now[w][kv.Key] = true
 					kv.Val = hex.EncodeToString(rapid.SliceOfN(rapid.Byte(), 0, 40).Draw(t, "val"))
 				}
 				st.KVs = append(st.KVs, kv)
 			}
-			st.DropBkt = rapid.IntRange(0, 5).Draw(t, "dropBucket") == 0
+			if kind != "rollback" {
+				present = now
+			}
 		}
 		h.Steps = append(h.Steps, st)
 	}
